@@ -53,6 +53,7 @@ type Profile struct {
 	EarlyCloseOneIn int    `json:"early_close_one_in,omitempty"` // with EarlyClose: one run in n closes early (default 2 in 3)
 	AcrossClose     bool   `json:"across_close,omitempty"`       // C04: in half of the runs held Readers stay open over Writer.Close and are read again afterwards
 	ForceMem        bool   `json:"force_mem,omitempty"`          // in-memory directory in every run
+	Bulk            bool   `json:"bulk,omitempty"`               // now and then one batch of 32-40 documents under a second id space, rewritten as a whole by later bulk batches
 	SnapReads       bool   `json:"snap_reads,omitempty"`         // fresh Reader + full read + close as one client operation
 
 	PostRun func(r *Run, res *Result) `json:"-"`
@@ -260,6 +261,7 @@ type Run struct {
 	bgSinceClient int
 	stats         RunStats
 	idspace       []string
+	bulkN         int // size of the bulk batches of this run (profile flag Bulk), 0 until the first one
 	lastMonKey    string
 	lastLayout    string
 	finalModel    *Model
@@ -810,6 +812,21 @@ func (r *Run) genBatch(c *client) *BatchSpec {
 			}
 			used[id] = true
 			b.Ops = append(b.Ops, mk(OpUpdate, id, len(b.Ops)))
+		}
+		return b
+	}
+	if r.p.Bulk && t.Chance(1, 5, "op.bulk") {
+		// one batch of many documents under an id space of its own; every
+		// later bulk batch of the run replaces all of them at once, so a whole
+		// segment is obsoleted by one batch of equal size (held readers of the
+		// older snapshots must keep their answers)
+		if r.bulkN == 0 {
+			r.bulkN = 32 + t.Draw(9, "op.bulk.n")
+		} else {
+			r.probe("bulk-rewrite-of-whole-segment")
+		}
+		for i := 0; i < r.bulkN; i++ {
+			b.Ops = append(b.Ops, mk(OpUpdate, fmt.Sprintf("k%02d", i), i))
 		}
 		return b
 	}
